@@ -63,6 +63,11 @@ def stepLine (feedBytes : BSt → Qx.Bytes → BSt × List (Ev String)) (s : BSt
     match textOfHex (String.join rest) with
     | some t => let r := feedText P s.st t; ({ s with st := r.1 }, obs r.1 r.2)
     | none => (s, "bad-op")
+  | "oracleS" :: t0 :: items =>
+    -- one session of a connection with stream restarts; `t0` = the header cached when it starts (`-` = none)
+    match (if t0 = "-" then some [] else textOfHex t0), buildItems items with
+    | some t, some its => (s, if checkOracleFrom t P its then "ok" else "violated")
+    | _, _ => (s, "violated")
   | "oracle" :: items =>
     match buildItems items with
     | some its => (s, if checkOracle P its then "ok" else "violated")
